@@ -377,6 +377,109 @@ def reason_strings(sio, eio, sio_file, sio_class, wanted):
 
 # ------------------------------------------------------------------------------------------------
 
+# ---------------------------------------------------------------------------------- measured fallback
+#
+# The extraction above is syntactic: a behaviour-preserving rewrite of the source (str.partition instead
+# of find, `while i < min(len(ep), 100)` instead of `if ... or i >= 100: break`, a helper method ...) can
+# move a constant out of the shape it recognises.  That is not a reason to stop: the constant is what the
+# code DOES.  When the syntactic extraction of one item fails, the item is measured instead, by running the
+# source's own modules in a separate interpreter (`PYTHONPATH=<repo>/src`, nothing of this process is
+# touched), and the generated doc string says so.  Only when both fail is a TranslatorError raised.
+
+_PROBE = r"""
+import json, sys
+out = {}
+try:
+    from socketio import packet
+    def accepts(text):
+        try:
+            packet.Packet(encoded_packet=text)
+            return True
+        except ValueError as e:
+            return str(e)
+    # attachment digits: the largest k such that a count of k digits is not refused as 'too many attachments'
+    k = 0
+    while k < 400 and accepts('5' + '1' * (k + 1) + '-["e"]') is True:
+        k += 1
+    out['attDigitLimit'] = k
+    # id digits: the largest k such that an id of k digits is accepted
+    k = 0
+    while k < 4000 and accepts('2' + '7' * (k + 1) + '["e"]') is True:
+        k += 1
+    out['idDigitLimit'] = k
+except Exception as e:
+    out['packet_error'] = repr(e)
+try:
+    from socketio import exceptions
+    d0 = exceptions.ConnectionRefusedError().error_args
+    d2 = exceptions.ConnectionRefusedError('m', 'x').error_args
+    (mk, msg), = d0.items()
+    dk = [k_ for k_ in d2 if k_ != mk]
+    out['refused'] = [mk, msg, dk[0]] if len(dk) == 1 and d2.get(mk) == 'm' and isinstance(msg, str) else None
+except Exception as e:
+    out['refused_error'] = repr(e)
+try:
+    import socketio
+    class Eio:
+        def __init__(self): self.sent = []
+        def send(self, sid, data): self.sent.append(data)
+    def unable(cls, is_async):
+        import asyncio
+        sio = cls()
+        eio = Eio()
+        if is_async:
+            async def send(sid, data): eio.sent.append(data)
+            eio.send = send
+        sio.eio = eio
+        if is_async:
+            async def go():
+                await sio._handle_eio_connect('T', {})
+                await sio._handle_eio_message('T', '0/not-served-namespace,')
+            asyncio.new_event_loop().run_until_complete(go())
+        else:
+            sio._handle_eio_connect('T', {})
+            sio._handle_eio_message('T', '0/not-served-namespace,')
+        pk = [packet.Packet(encoded_packet=x) for x in eio.sent if isinstance(x, str)]
+        pk = [p_ for p_ in pk if p_.packet_type == packet.CONNECT_ERROR]
+        return pk[0].data if len(pk) == 1 and isinstance(pk[0].data, str) else None
+    out['serverUnableToConnect'] = unable(socketio.Server, False)
+    out['asyncServerUnableToConnect'] = unable(socketio.AsyncServer, True)
+except Exception as e:
+    out['unable_error'] = repr(e)
+print(json.dumps(out))
+"""
+
+_probe_cache = {}
+
+
+def measured(repo):
+    """-> dict of the constants that can be measured by running the source (cached per repo)"""
+    repo = repo or os.environ.get('VERIF_REPO', '/repo')
+    if repo not in _probe_cache:
+        import json
+        import subprocess
+        import sys
+        env = dict(os.environ, PYTHONPATH=os.path.join(repo, 'src'), PYTHONDONTWRITEBYTECODE='1')
+        try:
+            r = subprocess.run([sys.executable, '-c', _PROBE], capture_output=True, text=True, timeout=120, env=env,
+                               cwd='/')
+            _probe_cache[repo] = json.loads(r.stdout.strip().splitlines()[-1]) if r.returncode == 0 else {}
+        except Exception:    # noqa
+            _probe_cache[repo] = {}
+    return _probe_cache[repo]
+
+
+def or_measured(repo, key, extract):
+    """`extract()` (syntactic) or, when the source no longer has the recognised shape, the measured value"""
+    try:
+        return extract(), None
+    except TranslatorError as e:
+        m = measured(repo).get(key)
+        if m is None:
+            raise
+        return m, ('measured by running the source (the syntactic extraction failed: %s)' % e)
+
+
 def constants(repo):
     """-> list of (lean name, lean type, lean term, doc); names are relative to `Sio.Generated`"""
     sio = socketio_pkg(repo)
@@ -386,17 +489,41 @@ def constants(repo):
         out.append((n, 'Nat', str(vals[n]), 'packet.py: `%s = %d`' % (n, vals[n])))
     out.append(('packetNames', 'List (List Char)', lean_list([lean_str(n) for n in names]),
                 'packet.py: `packet_names`'))
-    (att, att_src), (idl, id_src), where = decode_limits(sio)
-    out.append(('attDigitLimit', 'Nat', str(att),
-                '%s: `if %s: raise …` - an attachment count has at most this many digits' % (where, att_src)))
-    out.append(('idDigitLimit', 'Nat', str(idl),
-                '%s: `if %s: break` - an id has at most this many digits' % (where, id_src)))
+    try:
+        (att, att_src), (idl, id_src), where = decode_limits(sio)
+        out.append(('attDigitLimit', 'Nat', str(att),
+                    '%s: `if %s: raise …` - an attachment count has at most this many digits' % (where, att_src)))
+        out.append(('idDigitLimit', 'Nat', str(idl),
+                    '%s: `if %s: break` - an id has at most this many digits' % (where, id_src)))
+    except TranslatorError as e:
+        m = measured(repo)
+        if not (isinstance(m.get('attDigitLimit'), int) and isinstance(m.get('idDigitLimit'), int)):
+            raise
+        why = 'measured by running Packet.decode of the source (the syntactic extraction failed: %s)' % e
+        out.append(('attDigitLimit', 'Nat', str(m['attDigitLimit']), 'an attachment count has at most this many digits - ' + why))
+        out.append(('idDigitLimit', 'Nat', str(m['idDigitLimit']), 'an id has at most this many digits - ' + why))
     for lname, fname, cname in (('serverUnableToConnect', 'server.py', 'Server'),
                                 ('asyncServerUnableToConnect', 'async_server.py', 'AsyncServer')):
-        s, where = unable_to_connect(sio, fname, cname)
+        why = None
+        try:
+            s, where = unable_to_connect(sio, fname, cname)
+        except TranslatorError as e:
+            s = measured(repo).get(lname)
+            if not isinstance(s, str):
+                raise
+            where = 'socketio/%s:%s' % (fname, cname)
+            why = 'measured by sending a CONNECT for an unserved namespace to the source\'s server (the syntactic extraction failed: %s)' % e
         out.append((lname, 'List Char', lean_str(s),
-                    '%s._handle_connect: data of the CONNECT_ERROR packet for an unserved namespace' % where))
-    mkey, msg, dkey, where = refused_defaults(sio)
+                    '%s._handle_connect: data of the CONNECT_ERROR packet for an unserved namespace%s'
+                    % (where, ' - ' + why if why else '')))
+    try:
+        mkey, msg, dkey, where = refused_defaults(sio)
+    except TranslatorError as e:
+        m = measured(repo).get('refused')
+        if not m:
+            raise
+        mkey, msg, dkey = m
+        where = 'socketio/exceptions.py:ConnectionRefusedError (measured by constructing it; the syntactic extraction failed: %s)' % e
     out.append(('refusedMessageKey', 'List Char', lean_str(mkey), '%s.__init__: key of the message' % where))
     out.append(('refusedDefaultMessage', 'List Char', lean_str(msg),
                 '%s.__init__: message of `ConnectionRefusedError()`' % where))
